@@ -1063,9 +1063,17 @@ func interval(t *Term) (int64, int64, bool) {
 	return r.lo, r.hi, r.ok
 }
 
+// varBounds: known ranges of solver variables (e.g. clock increments), consulted by the interval analysis.
+var varBounds = map[string][2]int64{}
+
 func interval1(t *Term) ivl {
 	const lim = int64(1) << 40
 	switch t.op {
+	case OpVar:
+		if b, ok := varBounds[t.name]; ok {
+			return ivl{b[0], b[1], true}
+		}
+		return ivl{}
 	case OpConst:
 		v := signExt(t.val, t.w)
 		if v > lim || v < -lim {
